@@ -16,8 +16,8 @@ CLAUSES = {
     "C12": {"close_returns", "channels_closed", "deliver_after_close", "no_panic"},
 }
 
-V2_VERSIONS = ["0.11.0.0", "1.1.0", "2.1.0", "2.3.0"]
-LEGACY_VERSIONS = ["0.8.2.0", "0.9.0.0", "0.10.0.0", "0.10.1.0", "0.11.0.0", "2.1.0"]
+V2_VERSIONS = ["0.11.0.0", "1.0.0", "1.1.0", "2.0.0", "2.1.0", "2.3.0", "2.4.0", "2.6.0", "2.8.0"]
+LEGACY_VERSIONS = ["0.8.2.0", "0.9.0.0", "0.10.0.0", "0.10.1.0", "0.10.2.0", "0.11.0.0", "1.1.0", "2.1.0", "2.8.0"]
 
 
 def gen_logs(ctx, cfg):
